@@ -569,9 +569,48 @@ func recvPathOfValue(fn *ssa.Function, v ssa.Value, d int) string {
 			return fieldNameT(x.X.Type(), x.Field)
 		}
 	case *ssa.Extract:
-		// range over a slice/map yields tuples; not used for slices by go/ssa
+		// a value handed back by a helper method of the same receiver (selectCodec(r) (Codec, error)): the
+		// receiver path every returning path of the helper yields
+		if call, ok := x.Tuple.(*ssa.Call); ok {
+			return recvPathThroughHelper(fn, call, x.Index, d)
+		}
+	case *ssa.Call:
+		return recvPathThroughHelper(fn, x, 0, d)
 	}
 	return ""
+}
+
+// recvPathThroughHelper: result #idx of a call of a module method on fn's own
+// receiver, when every return of that method with a non-nil value there
+// yields one and the same receiver path.
+func recvPathThroughHelper(fn *ssa.Function, call *ssa.Call, idx int, d int) string {
+	h := call.Call.StaticCallee()
+	if h == nil || h.Blocks == nil || h.Signature.Recv() == nil || len(call.Call.Args) == 0 || !recvIsOurs(fn, call.Call.Args[0]) || d > 6 {
+		return ""
+	}
+	if idx >= h.Signature.Results().Len() {
+		return ""
+	}
+	path := ""
+	for _, b := range h.Blocks {
+		if b == h.Recover {
+			continue
+		}
+		ret, ok := b.Instrs[len(b.Instrs)-1].(*ssa.Return)
+		if !ok {
+			continue
+		}
+		r := resolvedResults(ret)[idx]
+		if isNilConst(r) {
+			continue
+		}
+		p := recvPathOfValue(h, r, d+1)
+		if p == "" || path != "" && p != path {
+			return ""
+		}
+		path = p
+	}
+	return path
 }
 
 func recvPathOfAddr(fn *ssa.Function, a ssa.Value, d int) string {
